@@ -443,6 +443,9 @@ func cmdReplay(args []string) int {
 	}
 	o := outs[abs]
 	fmt.Println(summarizeOutcome(o))
+	for _, ob := range o.Observed {
+		fmt.Println("  observed:", ob)
+	}
 	if !o.OK {
 		fmt.Println(o.Output)
 		return 2
